@@ -16,7 +16,8 @@ pub fn prop() -> Prop {
     id: "C03",
     rule: "case = (source: cold basic source | hot Subject | hot create-handle; input script of 0..6 items over {0..3} - one case in eight 20..100 items over {0..3} or {0..999} - with terminal none/complete/error (+ post-terminal events); chain of 1..5 operators from the C03 catalogue with parameters in 0..len+1 (one in 16: far larger - 32, 33, 255, 65536, 65537, usize::MAX/2, usize::MAX); local or thread-safe build). \
            Oracle: delivered (step, notification) list == reference interpreter. Non-trivial: the chain has a stateful operator and the input has >= 2 items, or a boundary count parameter (0, len, len+1), or the input ends in an error. Distinct by hash(AST, script, build). \
-           Part `single-op` enumerates one operator x all inputs of length <= 4 over {0,1,2} x every terminal exhaustively (thorough tier).",
+           Part `single-op` enumerates one operator x all inputs of length <= 4 over {0,1,2} x every terminal exhaustively. \
+           Part `pairs` enumerates every ordered pair of the 37 operators (compact parameter families: counts 0..len+1, 5 predicates, 3 maps, 2 folds, 3 key functions) x all inputs of length <= 3 over {0,1,2} x every terminal x cold create / hot Subject source exhaustively (interaction of two stacked state machines); both exhaustive parts are complete in the quick tier too.",
     assumptions: &[
       "predicates / map / fold / key functions come from a fixed total family shared by pipeline and model",
       "buffer_with_count(0) is not generated; take(0): no item, terminal either immediate or the source's own; skip_last accepts both the eager (code) and the at-completion (doc) timing",
@@ -25,6 +26,7 @@ pub fn prop() -> Prop {
     parts: vec![
       Part { name: "chains", run: run_chain, tape_len: 64, quick_cases: 1_500_000, thorough_cases: 30_000_000, exhaustive_depth: None, exhaustive_budget: 0, exh_quick: false },
       Part { name: "single-op", run: run_single, tape_len: 24, quick_cases: 100_000, thorough_cases: 400_000, exhaustive_depth: Some(16), exhaustive_budget: 5_000_000, exh_quick: true },
+      Part { name: "pairs", run: run_pair, tape_len: 24, quick_cases: 50_000, thorough_cases: 400_000, exhaustive_depth: Some(20), exhaustive_budget: 80_000_000, exh_quick: true },
     ],
   }
 }
@@ -75,6 +77,26 @@ fn gen_case_single(c: &mut dyn Choices) -> Case {
   } else {
     let cs = script.into_iter().map(|e| (0u8, e)).collect();
     Case { node: Node::un(op, Node::Src(Src::Create(cs))), script: vec![], kind: 0, threads: false }
+  }
+}
+
+/// bounded-exhaustive sub-space of operator pairs: two stacked operators, input of <= 3 items over {0,1,2}
+fn gen_case_pair(c: &mut dyn Choices) -> Case {
+  let hot = c.flag();
+  let n = c.pick(4);
+  let mut script: Vec<Ev> = (0..n).map(|_| Ev::N(gen_v(c, 3))).collect();
+  match c.pick(3) {
+    0 => {}
+    1 => script.push(Ev::C),
+    _ => script.push(Ev::Er(E(1))),
+  }
+  let op1 = gen_un_compact(c, n);
+  let op2 = gen_un_compact(c, n);
+  if hot {
+    Case { node: Node::un(op2, Node::un(op1, Node::Src(Src::Hot(0)))), script, kind: 1, threads: false }
+  } else {
+    let cs = script.into_iter().map(|e| (0u8, e)).collect();
+    Case { node: Node::un(op2, Node::un(op1, Node::Src(Src::Create(cs)))), script: vec![], kind: 0, threads: false }
   }
 }
 
@@ -358,6 +380,13 @@ fn excluded(case: &Case, ctx: &Ctx) -> bool {
 
 fn run_chain(c: &mut dyn Choices, ctx: &Ctx) -> Outcome {
   let case = gen_case(c, false);
+  if excluded(&case, ctx) {
+    return Outcome { labels: vec!["excluded-known"], ..Outcome::discard() };
+  }
+  judge(&case, ctx)
+}
+fn run_pair(c: &mut dyn Choices, ctx: &Ctx) -> Outcome {
+  let case = gen_case_pair(c);
   if excluded(&case, ctx) {
     return Outcome { labels: vec!["excluded-known"], ..Outcome::discard() };
   }
